@@ -10,6 +10,12 @@ use std::collections::BTreeMap;
 
 pub struct C05;
 
+const HAND: [&str; 3] = [
+    "struct Material { weight: f32, _reserved: vec2<f32>, color: vec4<f32>, _pad0: u32, _pad1: u32 }\nstruct Light { _pad: vec3<f32>, intensity: f32, _unused: mat2x2<f32> }\n@group(0) @binding(0) var<uniform> material: Material;\n@group(0) @binding(1) var<storage, read> lights: array<Light>;\n@compute @workgroup_size(1)\nfn main() { var x = material.weight + lights[0].intensity; }\n",
+    "struct VertexInput { @location(0) position: vec3<f32>, @location(1) uv: vec2<f32>, @location(2) weight: f32 }\nvar<private> current: VertexInput;\n@vertex\nfn vs_main(v: VertexInput) -> @builtin(position) vec4<f32> { current = v; return vec4<f32>(current.position, current.weight); }\n",
+    "struct Particle { position: vec4<f32>, @builtin(instance_index) index: u32, lifetime: f32, seed: u32 }\nstruct Emitter { @builtin(vertex_index) vi: u32, origin: vec3<f32>, rate: f32 }\n@group(0) @binding(0) var<storage, read_write> particles: array<Particle, 4>;\n@group(0) @binding(1) var<uniform> emitter: Emitter;\n@compute @workgroup_size(1)\nfn main() { particles[0].lifetime = emitter.rate; }\n",
+];
+
 /// ("S", None) -> size ; ("S", Some("m")) -> offset
 type Numbers = BTreeMap<(String, Option<String>), Vec<String>>;
 
@@ -109,6 +115,16 @@ impl Property for C05 {
                 ..Default::default()
             };
             out.push(Case::new(format!("world{i}/{mvt:?}/bytemuck_host={}", opts.derive_bytemuck_host_shareable), w.wgsl, Params::with_opts(opts)));
+        }
+        // hand-written shapes (round 7/8 seeds): `_`-prefixed members (explicit padding / reserved fields), a struct-typed
+        // var<private> whose struct is also a vertex input, a @builtin member that is not the last member of a host struct
+        for (k, src) in HAND.iter().enumerate() {
+            for mvt in [MatrixVectorTypes::Rust, MatrixVectorTypes::Glam, MatrixVectorTypes::Nalgebra] {
+                for vertex in [false, true] {
+                    let opts = WriteOptions { derive_bytemuck_host_shareable: true, derive_bytemuck_vertex: vertex, matrix_vector_types: mvt, ..Default::default() };
+                    out.push(Case::new(format!("hand{k}/{mvt:?}/vertex={vertex}"), src.to_string(), Params::with_opts(opts)));
+                }
+            }
         }
         out
     }
